@@ -40,7 +40,7 @@ ERRMAP = [
     ("has no chunks", 50), ("No frontend to copy to", 53), ("already exists", 53),
     ("Duplicate chunk numbers", 54), ("consecutive integers", 54), ("empty input buffer", 56),
     ("overlapping or out-of-order", 23), ("different run ids", 22), ("different data types", 21),
-    ("starts early", 3), ("ends late", 4),
+    ("starts early", 3), ("ends late", 4), ("is the source directory itself", 57),
 ]
 
 
